@@ -219,11 +219,18 @@ func dentLis(b []byte, o dapiOpts, fac *dapiFactory, n int, fs string) string {
 		return seq
 	}
 	// 2. the listener itself (worker goroutine, pool, channels)
-	conc := dentTimeout(3*time.Second, true, func() string {
+	concurrent := func() string {
 		lis := filedef.NewListener(filedef.WithChannelBuffer(uint(n)), filedef.WithFileSets(sets))
 		defer lis.Close()
 		return strings.Join(dentLoop(b, o, fac, lis, func() string { return dentType(lis.File()) }), " ")
-	})
+	}
+	conc := dentTimeout(3*time.Second, true, concurrent)
+	if conc == "hang" {
+		// a starved machine is not a deadlock: the verdict is `hang` only if a second, fresh attempt with a long timeout
+		// does not finish either (the first attempt's goroutines stay behind; they are counted once)
+		dentHangs--
+		conc = dentTimeout(12*time.Second, true, concurrent)
+	}
 	if conc != seq && conc != "hang" && !strings.HasPrefix(conc, "not-run") && !strings.HasPrefix(conc, "panic") {
 		return "mismatch[" + seq + "][" + conc + "]"
 	}
